@@ -28,6 +28,9 @@ def actionBytes : List String := ["actionSignBeaconAttestation=[]byte{0x02}", "a
     constant bounds of a request-supplied byte field, allocation sized by a request field) in the packages that
     client requests reach -/
 def panicSites : List String := [
+  "rules/standard/sign.go:Service.OnSign:slice:req.Domain[0:4]",
+  "rules/standard/sign.go:Service.OnSign:slice:req.Domain[0:4]",
+  "rules/standard/sign.go:Service.OnSign:slice:req.Domain[0:4]",
   "rules/standard/signbeaconattestation.go:signBeaconAttestationState.Decode:slice:data[1:9]",
   "rules/standard/signbeaconattestation.go:signBeaconAttestationState.Decode:slice:data[9:17]",
   "rules/standard/signbeaconattestation.go:signBeaconAttestationState.Encode:make:make([]byte, 1+8+8)",
